@@ -137,7 +137,8 @@ def cases(draw, tier):
     mperm = [draw(st.permutations(list(range(m)))) for _ in range(n)]
     fperm = draw(st.permutations(list(range(n))))
     shift = draw(st.sampled_from([0.0, 1.0, -7.5, 1e3, 0.1]))
-    scale = draw(st.sampled_from([1.0, 2.0, 0.5, 3.7, 1e-3, 1e3]))
+    scale = draw(st.sampled_from([1.0, 2.0, 0.5, 3.7, 1e-3, 1e3, 2.0**-60,
+                                  2.0**-200, 2.0**60, 2.0**-40]))
     return {"obs": obs, "ens": ens, "nanpos": nanpos, "regime": regime,
             "container": container, "mperm": mperm, "fperm": fperm,
             "shift": shift, "scale": scale}
